@@ -233,7 +233,7 @@ func run(c *mon.Ctx) {
 		}
 		c.Class(fmt.Sprintf("streamtype/%02x", code))
 	})
-	per := c.N(30, 2000)
+	per := c.N(30, 50000)
 	c.Exhaustive("all 256 descriptor tags for the neutral-value checks", 256)
 	c.Stream("foreign-tags", 256, func(tag int, r *gen.Rand) {
 		for k := 0; k < per; k++ {
@@ -256,7 +256,7 @@ func run(c *mon.Ctx) {
 			c.Class(fmt.Sprintf("foreign/tag=%02x/len=%d", tag, min(len(body), 5)))
 		}
 	})
-	c.Stream("own-tags", c.N(20000, 1000000), func(i int, r *gen.Rand) { own(c, r) })
+	c.Stream("own-tags", c.N(20000, 30000000), func(i int, r *gen.Rand) { own(c, r) })
 }
 
 func min(a, b int) int {
